@@ -202,10 +202,18 @@ func runViews(t *simrt.Tape, rc *RunCtx) *Violation {
 		rc.probe("clients>=4", 1)
 	}
 
+	// half of the runs hand the operations operands that are themselves views
+	// with the stride and column offset of the receiver's view ("same layout")
+	operandViews := t.Choose(simrt.KWorkload, 2) == 1
+	rc.Instance["operands_are_views_of_the_same_layout"] = operandViews
 	runBlock := func(dst *mat.Dense, bl *viewBlock) {
 		rows, cols := bl.i1-bl.i0, bl.j1-bl.j0
 		for _, st := range bl.steps {
-			viewOps[st.op].run(dst, &opRand{s: st.seed}, rows, cols)
+			r := &opRand{s: st.seed}
+			if operandViews {
+				r.viewStride, r.viewOff = C, bl.j0
+			}
+			viewOps[st.op].run(dst, r, rows, cols)
 		}
 	}
 	// reference: each block's operations on a standalone matrix that starts
